@@ -1,1 +1,126 @@
--- property theorems for C14 (stub)
+/- C14 — arithmetic on numbers and 64-bit integers is exact and consistently defined.
+
+   Property theorems about the model `JanetModel.Int64` (mirror of src/core/inttypes.c, the operator opcodes of vm.c and
+   boot.janet's `compare`).  The theorems in the section "current tree" mention `cfgGen` / the generated tables of
+   `Gen/Int64.lean`, which the translator rewrites from the source on every run: they are proof obligations on the
+   current tree (they do not check on a tree where a signed `/` or `%` lacks the INT64_MIN / -1 test, where the edge
+   comparison of the compare functions is exclusive, or where a method table row / the dispatch order changed).
+   IEEE arithmetic on two plain numbers is not the subject of any theorem (tested against Lean `Float` and Python). -/
+import JanetModel.Int64.Lemmas
+namespace JanetModel.Props.C14
+open JanetModel.Int64 JanetModel.Gen.Int64
+
+/-! ## wrap-around operators are the 64-bit two's-complement (BitVec 64) operators, for both kinds, all operands -/
+
+theorem wrap_ops_eq_bitvec (k : Kind) (a b : Int) :
+    (∃ r, opMethod k "+" a b = .ok r ∧ BitVec.ofInt 64 r = BitVec.ofInt 64 a + BitVec.ofInt 64 b) ∧
+    (∃ r, opMethod k "-" a b = .ok r ∧ BitVec.ofInt 64 r = BitVec.ofInt 64 a - BitVec.ofInt 64 b) ∧
+    (∃ r, opMethod k "*" a b = .ok r ∧ BitVec.ofInt 64 r = BitVec.ofInt 64 a * BitVec.ofInt 64 b) ∧
+    (∃ r, opMethod k "&" a b = .ok r ∧ BitVec.ofInt 64 r = BitVec.ofInt 64 a &&& BitVec.ofInt 64 b) ∧
+    (∃ r, opMethod k "|" a b = .ok r ∧ BitVec.ofInt 64 r = BitVec.ofInt 64 a ||| BitVec.ofInt 64 b) ∧
+    (∃ r, opMethod k "^" a b = .ok r ∧ BitVec.ofInt 64 r = BitVec.ofInt 64 a ^^^ BitVec.ofInt 64 b) ∧
+    BitVec.ofInt 64 (notMethod k a) = ~~~ BitVec.ofInt 64 a := by
+  obtain ⟨r1, h1, _, e1⟩ := opMethod_add k a b
+  obtain ⟨r2, h2, _, e2⟩ := opMethod_sub k a b
+  obtain ⟨r3, h3, _, e3⟩ := opMethod_mul k a b
+  obtain ⟨r4, h4, _, e4⟩ := opMethod_and k a b
+  obtain ⟨r5, h5, _, e5⟩ := opMethod_or k a b
+  obtain ⟨r6, h6, _, e6⟩ := opMethod_xor k a b
+  exact ⟨⟨r1, h1, e1⟩, ⟨r2, h2, e2⟩, ⟨r3, h3, e3⟩, ⟨r4, h4, e4⟩, ⟨r5, h5, e5⟩, ⟨r6, h6, e6⟩, (notMethod_bitvec k a).2⟩
+
+/-- ... and every result is a value of the type (so, with the previous theorem, *the* two's-complement result) -/
+theorem wrap_ops_in_range (k : Kind) (oper : String) (a b : Int) (r : Int) (h : opMethod k oper a b = .ok r) :
+    k.inRange r := by
+  unfold opMethod at h
+  split at h <;> first | (injection h with h; subst h; exact wrap_inRange _ _) | exact absurd h (by simp)
+
+/-- shifts with a count inside the width (0 ≤ count < 64; anything else is undefined in C and outside the property) -/
+theorem shift_ops_eq_bitvec (a b : Int) (h : shiftDefined b) :
+    (∀ k, ∃ r, opMethod k "<<" a b = .ok r ∧ k.inRange r ∧ BitVec.ofInt 64 r = BitVec.ofInt 64 a <<< (wrapU b).toNat) ∧
+    (Kind.s64.inRange a → opMethod .s64 ">>" a b = .ok ((BitVec.ofInt 64 a).sshiftRight (wrapU b).toNat).toInt) :=
+  ⟨fun k => opMethod_shl k a b h, fun ha => opMethod_sar a b ha h⟩
+
+/-! ## division -/
+
+/-- `div` on s64 is floor division, for every pair except INT64_MIN / -1 (whose quotient is not an int64) -/
+theorem divf_eq_floor_div (g : Bool) (a b : Int) (ha : Kind.s64.inRange a) (hb0 : b ≠ 0)
+    (hmin : ¬ (a = int64Min ∧ b = -1)) : divfMethod g a b = .ok (Int.fdiv a b) :=
+  JanetModel.Int64.divf_eq_floor_div g a b ha hb0 hmin
+
+/-- `mod` on s64 is the floor modulus (sign of the divisor); with the guard also for INT64_MIN mod -1 (= 0) -/
+theorem mod_eq_floor_mod (g : Bool) (a b : Int) (ha : Kind.s64.inRange a) (hb : Kind.s64.inRange b) (hb0 : b ≠ 0)
+    (hmin : g = true ∨ ¬ (a = int64Min ∧ b = -1)) : modMethod g a b = .ok (Int.fmod a b) :=
+  JanetModel.Int64.mod_eq_floor_mod g a b ha hb hb0 hmin
+
+/-- `/` and `%` truncate (C semantics), INT64_MIN / -1 is an error; unsigned `/`, `%`, `mod` are the natural ones -/
+theorem trunc_div_rem_correct (a b : Int) (hb0 : b ≠ 0) :
+    (¬ (a = int64Min ∧ b = -1) → divMethodS true "div" "/" a b = .ok (Int.tdiv a b) ∧ divMethodS true "rem" "%" a b = .ok (Int.tmod a b))
+    ∧ ((a = int64Min ∧ b = -1) → divMethodS true "div" "/" a b = .err .minneg ∧ divMethodS true "rem" "%" a b = .err .minneg)
+    ∧ divMethodU "div" "/" a b = .ok (a / b) ∧ divMethodU "rem" "%" a b = .ok (a % b) ∧ divMethodU "mod" "%" a b = .ok (a % b) :=
+  JanetModel.Int64.trunc_div_rem_correct a b hb0
+
+theorem mod_zero_is_dividend (g : Bool) (a : Int) : modMethod g a 0 = .ok a ∧ divMethodU "mod" "%" a 0 = .ok a :=
+  ⟨JanetModel.Int64.mod_zero_is_dividend g a, (JanetModel.Int64.div_zero_errors g a).2.2.2.2.2⟩
+
+theorem div_zero_errors (g : Bool) (a : Int) :
+    divfMethod g a 0 = .err .divzero ∧ divMethodS g "div" "/" a 0 = .err .divzero ∧ divMethodS g "rem" "%" a 0 = .err .divzero
+    ∧ divMethodU "div" "/" a 0 = .err .divzero ∧ divMethodU "rem" "%" a 0 = .err .divzero :=
+  let h := JanetModel.Int64.div_zero_errors g a
+  ⟨h.1, h.2.1, h.2.2.1, h.2.2.2.1, h.2.2.2.2.1⟩
+
+/-! ## no undefined C operation -/
+
+/-- the method bodies never perform an undefined operation iff every signed `/`, `%` is guarded — for any configuration -/
+theorem no_ub_iff_guarded (c : Cfg) : ArithNoUb c ↔ c.allGuarded = true := JanetModel.Int64.no_ub_iff_guarded c
+
+/-- what holds on every tree (the pinned one included): only INT64_MIN / -1 can be undefined -/
+theorem no_ub_partial (c : Cfg) (name oper : String) (a b : Int) (h : ¬ (a = int64Min ∧ b = -1)) :
+    divMethodS c.guardDiv name oper a b ≠ .ub ∧ divMethodS c.guardDivi name oper a b ≠ .ub ∧
+    divfMethod c.guardDivf a b ≠ .ub ∧ divfMethod c.guardDivfi a b ≠ .ub ∧
+    modMethod c.guardMod a b ≠ .ub ∧ modMethod c.guardModi a b ≠ .ub :=
+  JanetModel.Int64.no_ub_partial c name oper a b h
+
+/-- the missing part on the pinned tree e691f18: `(div (int/s64 "-9223372036854775808") -1)` and `(mod ... -1)` execute
+    the C expression INT64_MIN / -1 resp. INT64_MIN % -1 (SIGFPE on x86-64) -/
+theorem ub_reachable_on_pinned :
+    divfMethod cfgPinned.guardDivf int64Min (-1) = .ub ∧ modMethod cfgPinned.guardMod int64Min (-1) = .ub ∧
+    callCfun2 cfgPinned .s64 "s64_divf" (.s64 int64Min) (.num 0xbff0000000000000) = .ub :=
+  JanetModel.Int64.ub_reachable_on_pinned
+
+example : ¬ ArithNoUb cfgPinned := fun h => by
+  have := (no_ub_iff_guarded cfgPinned).1 h
+  exact absurd this (by decide)
+
+/-! ## current tree (obligations over the regenerated `Gen/Int64.lean`) -/
+
+/-- ★ on the current source no 64-bit integer method performs an undefined C operation.
+    Does not check on a tree where `div`, `rdiv`, `mod`, `rmod`, `/`, `r/`, `%` or `r%` lacks the INT64_MIN / -1 test. -/
+theorem no_ub : ArithNoUb cfgGen := (no_ub_iff_guarded cfgGen).2 (by decide)
+
+/-- the method tables of the current source: every binary operator has its reversed variant bound to the function with
+    swapped operands (non-commutative operators) or to the same function (commutative ones); no reversed shift methods;
+    the kinds agree -/
+theorem method_tables_ok :
+    (∀ k : Kind, ∀ p ∈ [("+", "add", "add"), ("*", "mul", "mul"), ("&", "and", "and"), ("|", "or", "or"), ("^", "xor", "xor"),
+                         ("-", "sub", "subi"), ("/", "div", "divi"), ("%", "rem", "remi"), ("mod", "mod", "modi")],
+        (methodTable k).lookup p.1 = some (kindName k ++ "_" ++ p.2.1) ∧
+        (methodTable k).lookup ("r" ++ p.1) = some (kindName k ++ "_" ++ p.2.2)) ∧
+    s64Methods.lookup "div" = some "s64_divf" ∧ s64Methods.lookup "rdiv" = some "s64_divfi" ∧
+    u64Methods.lookup "div" = some "u64_div" ∧ u64Methods.lookup "rdiv" = some "u64_divi" ∧
+    (∀ k : Kind, (methodTable k).lookup "<<" = some (kindName k ++ "_lshift") ∧ (methodTable k).lookup ">>" = some (kindName k ++ "_rshift") ∧
+                 (methodTable k).lookup "r<<" = none ∧ (methodTable k).lookup "r>>" = none ∧
+                 (methodTable k).lookup "~" = some (kindName k ++ "_not") ∧ (methodTable k).lookup "compare" = some (kindName k ++ "_compare")) ∧
+    (divfArgs, divfiArgs, modArgs, modiArgs) = ((0, 1), (1, 0), (0, 1), (1, 0)) := by
+  refine ⟨?_, by decide, by decide, by decide, by decide, ?_, by decide⟩
+  · intro k; cases k <;> decide
+  · intro k; cases k <;> decide
+
+/-- dispatch order of the current source: the left operand's method first, then the *reversed* method of the right
+    operand with the operands swapped (so that `r-` computes lhs - rhs) -/
+theorem dispatch_left_then_reversed_right (c : Cfg) (lm rm : String) (lhs rhs : Val) :
+    (∀ k f, methodOf lhs lm = some (k, f) → binopCall c lm rm lhs rhs = callCfun2 c k f lhs rhs) ∧
+    (methodOf lhs lm = none → ∀ k f, methodOf rhs rm = some (k, f) → binopCall c lm rm lhs rhs = callCfun2 c k f rhs lhs) ∧
+    (methodOf lhs lm = none → methodOf rhs rm = none → binopCall c lm rm lhs rhs = .err .nomethod) := by
+  refine ⟨fun k f h => ?_, fun h k f h' => ?_, fun h h' => ?_⟩ <;> simp [binopCall, binopFirstIsLhs, binopSecondIsRhs, binopLArgsInOrder, binopRArgsSwapped, *]
+
+end JanetModel.Props.C14
